@@ -3,26 +3,24 @@ import PsycheModel.KeywordTrie
 namespace PsycheModel.KeywordTrie
 open PsycheModel.Generated
 
-theorem tailOK_exec {b : Block} (h : tailOK b = true) (w : Word) (o : Opts) {k : Kind}
-    (hk : k ≠ Kind.IdentifierToken) : exec b w o ≠ some k := by
-  cases b with
-  | nil => simp [exec]
-  | ret k' =>
-    simp only [tailOK, beq_iff_eq] at h
-    subst h
-    simp only [exec]
-    intro hc; exact hk (Option.some.inj hc).symm
-  | chain _ _ => simp [tailOK] at h
-
-theorem tailOK_paths {b : Block} (h : tailOK b = true) {q : Path} (hq : q ∈ paths b) :
-    q.kind = Kind.IdentifierToken := by
-  cases b with
-  | nil => simp [paths] at hq
-  | ret k' =>
-    simp only [tailOK, beq_iff_eq] at h
-    simp only [paths, List.mem_singleton] at hq
-    subst hq; exact h
-  | chain _ _ => simp [tailOK] at h
+theorem headsOK_append : ∀ (a b : List (Nat × Nat)), headsOK (a ++ b) = true →
+    headsOK a = true ∧ ∀ x ∈ a, ∀ y ∈ b, y.1 = x.1 ∧ y.2 ≠ x.2 := by
+  intro a
+  induction a with
+  | nil => intro b _; exact ⟨rfl, fun x hx => by simp at hx⟩
+  | cons h t ih =>
+    intro b hab
+    obtain ⟨p, c⟩ := h
+    simp only [List.cons_append, headsOK, Bool.and_eq_true, List.all_eq_true, List.mem_append, beq_iff_eq,
+      bne_iff_ne] at hab
+    obtain ⟨ih1, ih2⟩ := ih b hab.2
+    refine ⟨?_, ?_⟩
+    · simp only [headsOK, Bool.and_eq_true, List.all_eq_true, beq_iff_eq, bne_iff_ne]
+      exact ⟨fun x hx => hab.1 x (Or.inl hx), ih1⟩
+    · intro x hx y hy
+      rcases List.mem_cons.mp hx with rfl | hx
+      · exact hab.1 y (Or.inr hy)
+      · exact ih2 x hx y hy
 
 theorem mem_pathsBrs_head : ∀ (brs : Branches) (q : Path), q ∈ pathsBrs brs → ∃ x ∈ brsHeads brs, x ∈ q.cs
   | .nil, q, hq => by simp [pathsBrs] at hq
@@ -38,6 +36,34 @@ theorem matches_cs {q : Path} {w : Word} {o : Opts} (h : q.matches w o = true) {
   simp only [Path.matches, Bool.and_eq_true, List.all_eq_true] at h
   simpa using h.1 x hx
 
+theorem execBrs_some_head : ∀ (brs : Branches) (w : Word) (o : Opts) (r : Option Kind),
+    execBrs brs w o = some r → ∃ x ∈ brsHeads brs, w[x.1]? = some x.2
+  | .nil, w, o, r, h => by simp [execBrs] at h
+  | .cons p c gs body rest, w, o, r, h => by
+    simp only [execBrs] at h
+    by_cases hc : cond w o p c gs = true
+    · simp only [cond, Bool.and_eq_true, beq_iff_eq] at hc
+      exact ⟨(p, c), by simp [brsHeads], hc.1⟩
+    · rw [if_neg hc] at h
+      obtain ⟨x, hx, hw⟩ := execBrs_some_head rest w o r h
+      exact ⟨x, by simp [brsHeads, hx], hw⟩
+
+theorem mem_paths_head : ∀ (b : Block) (q : Path), tailOK b = true → q ∈ paths b → q.kind ≠ Kind.IdentifierToken →
+    wf b = true → ∃ x ∈ restHeads b, x ∈ q.cs
+  | .nil, q, _, hq, _, _ => by simp [paths] at hq
+  | .ret k, q, ht, hq, hk, _ => by
+    simp only [tailOK, beq_iff_eq] at ht
+    simp only [paths, List.mem_singleton] at hq
+    subst hq; exact absurd ht hk
+  | .chain brs rest, q, _, hq, hk, hwf => by
+    simp only [wf, Bool.and_eq_true] at hwf
+    simp only [paths, List.mem_append] at hq
+    rcases hq with hq | hq
+    · obtain ⟨x, hx, hxq⟩ := mem_pathsBrs_head brs q hq
+      exact ⟨x, by simp [restHeads, hx], hxq⟩
+    · obtain ⟨x, hx, hxq⟩ := mem_paths_head rest q hwf.1.2 hq hk hwf.2
+      exact ⟨x, by simp [restHeads, hx], hxq⟩
+
 mutual
 theorem exec_iff : ∀ (b : Block) (w : Word) (o : Opts) (k : Kind), wf b = true → k ≠ Kind.IdentifierToken →
     (exec b w o = some k ↔ ∃ q ∈ paths b, q.kind = k ∧ q.matches w o = true)
@@ -49,16 +75,24 @@ theorem exec_iff : ∀ (b : Block) (w : Word) (o : Opts) (k : Kind), wf b = true
     · rintro ⟨q, rfl, hk, _⟩; simp at hk; rw [hk]
   | .chain brs rest, w, o, k, hwf, hk => by
     simp only [wf, Bool.and_eq_true] at hwf
-    obtain ⟨⟨hb, hh⟩, ht⟩ := hwf
-    have ih := execBrs_iff brs w o k hb hh hk
+    obtain ⟨⟨⟨hb, hh⟩, ht⟩, hwr⟩ := hwf
+    obtain ⟨hh1, hh2⟩ := headsOK_append _ _ hh
+    have ih := execBrs_iff brs w o k hb hh1 hk
+    have ihr := exec_iff rest w o k hwr hk
     simp only [exec, paths, List.mem_append]
     constructor
     · intro h
       cases he : execBrs brs w o with
-      | none => rw [he] at h; exact absurd h (tailOK_exec ht w o hk)
+      | none =>
+        rw [he] at h
+        obtain ⟨q, hq, h1, h2⟩ := ihr.mp h
+        exact ⟨q, Or.inr hq, h1, h2⟩
       | some r =>
         cases r with
-        | none => rw [he] at h; exact absurd h (tailOK_exec ht w o hk)
+        | none =>
+          rw [he] at h
+          obtain ⟨q, hq, h1, h2⟩ := ihr.mp h
+          exact ⟨q, Or.inr hq, h1, h2⟩
         | some k' =>
           rw [he] at h
           have : k' = k := Option.some.inj h
@@ -67,7 +101,18 @@ theorem exec_iff : ∀ (b : Block) (w : Word) (o : Opts) (k : Kind), wf b = true
           exact ⟨q, Or.inl hq, h1, h2⟩
     · rintro ⟨q, hq | hq, h1, h2⟩
       · rw [ih.mpr ⟨q, hq, h1, h2⟩]
-      · exact absurd (h1 ▸ tailOK_paths ht hq) hk
+      · -- a matching keyword path of a later chain: no branch of this chain can have been taken
+        have hex : exec rest w o = some k := ihr.mpr ⟨q, hq, h1, h2⟩
+        cases he : execBrs brs w o with
+        | none => simp only []; exact hex
+        | some r =>
+          exfalso
+          obtain ⟨x, hx, hxw⟩ := execBrs_some_head brs w o r he
+          obtain ⟨y, hy, hyq⟩ := mem_paths_head rest q ht hq (h1 ▸ hk) hwr
+          have hyw := matches_cs h2 hyq
+          obtain ⟨e1, e2⟩ := hh2 x hx y hy
+          rw [e1, hxw] at hyw
+          exact e2 (Option.some.inj hyw).symm
 theorem execBrs_iff : ∀ (brs : Branches) (w : Word) (o : Opts) (k : Kind), wfBrs brs = true →
     headsOK (brsHeads brs) = true → k ≠ Kind.IdentifierToken →
     (execBrs brs w o = some (some k) ↔ ∃ q ∈ pathsBrs brs, q.kind = k ∧ q.matches w o = true)
